@@ -47,4 +47,32 @@ static void os_manip(struct ostream *os, int m)
 /* operator<< overload resolution on the C type of the expression: char prints as a character, integers as numbers */
 #define OUT_VAL(os, x) _Generic((x), char: os_emit((os), EV_CHR, 0, (char)(unsigned long)(x), 0), \
                                      default: os_emit((os), EV_NUM, (unsigned long)(x), 0, 0))
+
+/* ostream::write(ptr, n).good(): one unformatted write event (may fail: badbit); std::vector<byte>(first, last) */
+static void mon_write(struct ostream *os, const byte *p, size_t n);     /* per-harness */
+static bool os_write(struct ostream *os, const byte *p, size_t n)
+{
+  if (os->bad) return 0;
+  if (nondet_bool()) { os->bad = 1; return 0; }
+  if (os->events < (1ul << 60)) os->events++;
+  mon_write(os, p, n);
+  return 1;
+}
+#ifndef BYTEBUF_CAP
+#define BYTEBUF_CAP (1ul << 18)      /* 18-bit file length */
+#endif
+struct bytebuf { size_t n; byte *d; };
+static byte g_bytebuf_store[BYTEBUF_CAP];
+static size_t g_k2;                  /* ghost index */
+static struct bytebuf bytebuf_from(const byte *first, const byte *last)
+{
+  struct bytebuf b;
+  b.n = (size_t)(last - first);
+  __CPROVER_assert(b.n <= BYTEBUF_CAP, "model: file bodies have at most 2^18 bytes");
+  b.d = g_bytebuf_store;
+  /* contents: a copy of [first, last); modelled as unconstrained except at the ghost index */
+  __CPROVER_havoc_object(g_bytebuf_store);
+  if (g_k2 < b.n) g_bytebuf_store[g_k2] = first[g_k2];
+  return b;
+}
 #endif
